@@ -1168,10 +1168,14 @@ let mon_c14 (r : runres) (flags : string list) =
          | Some hi when hi.started && not hi.fork_mode && hi.child > 0 && i rr = epipe ->
            (* the converse: the closed-pipe error only for a stdin that really is closed -- here the
               parent never closed it, it is a pipe, and the child still holds its read end *)
+           (* ... before AND after the call: a child that dies or closes its stdin while the write is in
+              progress (e.g. killed by SIGPIPE on its own output) makes the error legitimate *)
            let reader_open =
              match image_obj (match hi.start_after with Some w -> w | None -> st.s_before) hi.child 0 with
-             | Some (OPipeR q) -> (proc st.s_before hi.child).pr_state = Running
-                                  && List.exists (fun (_, d) -> d.f_obj = OPipeR q) (fds_of st.s_before hi.child)
+             | Some (OPipeR q) ->
+               List.for_all (fun w -> (proc w hi.child).pr_state = Running
+                                      && List.exists (fun (_, d) -> d.f_obj = OPipeR q) (fds_of w hi.child))
+                 [ st.s_before; st.s_after ]
              | _ -> false in
            if reader_open then
              fail "C14/result-class/open-stream/write" "write returned the closed-pipe error although stdin was never closed and the child still reads it"
